@@ -88,6 +88,13 @@ func NewIPTransport(config Config, a *accessory.Accessory, as ...*accessory.Acce
 
 	cfg.load(storage)
 
+	// The keys of the device are stored under its id. The id is stored first: when the
+	// process dies in between, the next start finds the id again instead of creating
+	// a second device, whose entity would count as a pairing.
+	if err := storage.Set("uuid", []byte(cfg.id)); err != nil {
+		return nil, err
+	}
+
 	device, err := hap.NewSecuredDevice(cfg.id, hap_pin, database)
 	if err != nil {
 		return nil, err
